@@ -353,6 +353,9 @@ class Interp:
             return BoundMethod(obj, None, attr)
         if isinstance(obj, (list, dict, set, tuple, str, bytes, int)):
             return BoundMethod(obj, None, attr)
+        cells = getattr(eng, "class_cells", None)
+        if cells and isinstance(obj, type) and (obj, attr) in cells:
+            return cells[(obj, attr)].value
         try:
             return getattr(obj, attr)
         except AttributeError:
@@ -688,6 +691,10 @@ class Interp:
             if kind is None:
                 raise Unsupported(f"write to undeclared field {attr} of {obj.cls}")
             self.engine.heap_write(self.ctx, obj, attr, kind, v)
+            return
+        cells = getattr(self.engine, "class_cells", None)
+        if cells and isinstance(obj, type) and (obj, attr) in cells:
+            cells[(obj, attr)].value = v
             return
         raise Unsupported(f"attribute write on {obj!r}")
 
